@@ -29,6 +29,10 @@
 #ifndef LGPF
 #define LGPF 0
 #endif
+#if LGPF && !FLEX
+/* ASSUME: s_log_groups_per_flex != 0 only together with the flex_bg feature (mke2fs PRS rejects -G without flex_bg) */
+#error "LGPF != 0 requires FLEX"
+#endif
 #ifndef BPG
 #define BPG 16
 #endif
